@@ -1285,6 +1285,9 @@ function loadFindings() {
   }
 }
 function corpusProject(id) {
+  try {
+    return JSON.parse(fs.readFileSync(path.join(JSRT, "mods", id + ".project.json"), "utf8"));
+  } catch {}
   const c = JSON.parse(fs.readFileSync(path.join(HOME, "corpus/corpus.json"), "utf8"));
   return c.find((p) => p.id === id);
 }
@@ -1341,6 +1344,7 @@ async function minimize(prop, run, cls, ctxs) {
   return best;
 }
 
+const REG_BASE = 1e12;
 async function main() {
   const [cmd, a1, a2] = process.argv.slice(2);
   if (cmd === "worker") return workerMain(a1);
@@ -1421,6 +1425,21 @@ async function main() {
   const agg = { n: 0, prints: 0, throws: 0, exports: 0, writes: 0, bytes: 0, viol: new Map(), sigs: new Set(), nontrivial: new Set(), samples: [], crossed: 0, extraPad: 0, overrides: 0, skipped: 0, classes: new Set(), refs: 0, defs: 0 };
   const only = process.env.JSIM_ONLY ? process.env.JSIM_ONLY.split(",").map(Number) : null;
   const indices = only ?? Array.from({ length: runs }, (_, i) => i);
+  // recorded histories (corpus/regress_jsim.json: the minimised replay files of every repaired defect and of
+  // every detection of an independently written breaking change), executed as explicit runs after the seeded ones
+  let recorded = 0;
+  if (!only && !process.env.JSIM_NO_REGRESS) {
+    try {
+      const reg = JSON.parse(fs.readFileSync(path.join(HOME, "corpus/regress_jsim.json"), "utf8"));
+      for (const e of reg) {
+        const r = e.run;
+        if (r.property !== prop || !Array.isArray(r.ops) || (r.ops[0] && r.ops[0].op === "hash256-stability") || r.deleted_globals || r.violation_class === "call-never-returns") continue;
+        const { observed, violation_class, root_seed, run_index, engine, property, ...run } = r;
+        indices.push({ index: REG_BASE + recorded, run });
+        recorded++;
+      }
+    } catch {}
+  }
   const stalled = [];
   const ENV_BATCH = prop === "C13" && !only ? (tier === "quick" ? 10000 : 200000) : 0;
   const baseC13 = new Map();
@@ -1607,7 +1626,7 @@ async function main() {
     const final = index < 0 ? { violations: [v] } : prop === "C16" ? await execC16(ctxs.mods, ctxs.SPC, min) : execC13(ctxs.H, min);
     const fv = final.violations.find((x) => x.class === cls) ?? v;
     const file = { engine: "jsim", property: prop, violation_class: cls, root_seed: ROOT, run_index: index, ...min, observed: fv.detail };
-    if (prop === "C16") file.module_project = corpusProject(min.module) ?? null;
+    if (prop === "C16") file.module_project = corpusProject(min.module) ?? min.module_project ?? null;
     const dir = path.join(HOME, "out/replays", prop);
     fs.mkdirSync(dir, { recursive: true });
     const p = path.join(dir, fnv32(canon(file)).toString(16).padStart(8, "0") + ".json");
@@ -1630,6 +1649,7 @@ async function main() {
             rule: "one evaluation = one seeded sequence of 1-12 schemaWithContext / exportDefinitions calls on ONE SchemaPrintingContext (random refPathTemplate, container key, overrides) over a module compiled by the real compiler from a corpus project; oracles recomputed with fresh contexts; distinct = distinct (module, configuration, call sequence); non-trivial = at least two prints and a non-empty final export",
             samples: agg.samples,
             simulated_runs: agg.n,
+            recorded_histories_replayed: recorded,
             runs_per_hour: Math.round((agg.n / Math.max(wall, 0.001)) * 3600),
             simulated_time_events: agg.prints + agg.exports,
             prints: agg.prints,
@@ -1654,6 +1674,7 @@ async function main() {
             rule: "one evaluation = one seeded sequence of 0-40 public writes (tag/string/number/boolean/null) on one Hash256Writer, string lengths steered onto block and padding boundaries, then digestHex and post-digest fault operations; oracle = node:crypto SHA-256 over the bytes tapped at the writer's single byte sink; distinct = distinct (total length mod 64, number of writes) classes; non-trivial = at least one byte written",
             samples: agg.samples,
             simulated_runs: agg.n,
+            recorded_histories_replayed: recorded,
             runs_per_hour: Math.round((agg.n / Math.max(wall, 0.001)) * 3600),
             simulated_time_events: agg.writes,
             writes: agg.writes,
